@@ -50,3 +50,371 @@ Qed.
 (* the checker's verdict on a handler that wrote the forest [f] *)
 Lemma wrote_forest id f : w_wrote (enc_all id (tokens_of_forest f) w0) = existsb (reply_tree id) f.
 Proof. destruct (enc_forest id f w0 eq_refl) as [_ H]. exact H. Qed.
+
+(* the constants the rule depends on, as the source has them today *)
+Lemma tbl_error_is_no_request : needs_resp sv_iq_error = false /\ needs_resp sv_iq_result = false.
+Proof. vm_compute. split; reflexivity. Qed.
+Lemma tbl_get_set_are_requests : needs_resp sv_iq_get = true /\ needs_resp sv_iq_set = true.
+Proof. vm_compute. split; reflexivity. Qed.
+Lemma tbl_iq_names : is_iq (mkname sv_ns_client s_iq) = true /\ is_iq (mkname sv_ns_server s_iq) = true /\
+  is_iq_empty (mkname [] s_iq) = true /\ is_iq (mkname [] s_iq) = false.
+Proof. vm_compute. repeat split; reflexivity. Qed.
+
+(* the default reply is one element and the checker itself would count it as the reply *)
+Definition default_tree (id to : bytes) : tree :=
+  Elem (mkname [] s_iq)
+       ([mk_attr s_type sv_iq_error] ++ (if is_nil to then [] else [mk_attr s_to to])
+        ++ (if is_nil id then [] else [mk_attr s_id id]))
+       [Elem (mkname [] s_error) [mk_attr s_type sv_err_cancel]
+          [Elem (mkname sv_ns_stanza_error sv_cond_service_unavailable) [] []]].
+
+Lemma default_reply_tree id to : default_reply id to = tokens_of_tree (default_tree id to).
+Proof. reflexivity. Qed.
+
+Lemma default_reply_is_reply id to : reply_tree id (default_tree id to) = true.
+Proof.
+  unfold reply_tree, default_tree, reply_start.
+  assert (H : get_id_typ ([mk_attr s_type sv_iq_error] ++ (if is_nil to then [] else [mk_attr s_to to])
+        ++ (if is_nil id then [] else [mk_attr s_id id])) = (id, sv_iq_error)).
+  { destruct to as [|t0 to]; destruct id as [|i0 id]; reflexivity. }
+  rewrite H. cbn [fst snd].
+  assert (E : bytes_eqb id id = true) by (apply bytes_eqb_eq; reflexivity). rewrite E.
+  reflexivity.
+Qed.
+
+Section Rule.
+Variable c : cfg.
+
+(* the reply rule for one invocation *)
+Lemma reply_rule n a pd pre e v p' f :
+  inv_spec c n a pd pre e v p' ->
+  let a' := shown_attrs c n a in
+  let id := fst (get_id_typ a') in
+  let from := attr_get s_from a' in
+  is_iq n = true -> needs_resp (snd (get_id_typ a')) = true ->
+  v_ret v = None -> v_hw v = tokens_of_forest f ->
+  (existsb (reply_tree id) f = true -> v_auto v = []) /\
+  (existsb (reply_tree id) f = false ->
+     exists j, v_auto v = tokens_of_tree (default_tree id j) /\
+               (from = [] -> j = []) /\ (from <> [] -> c_jp c from = Some j)).
+Proof.
+  intros Hv a' id from Hiq Hneed Hret Hhw.
+  destruct Hv as [_ [_ [_ [H4 _]]]]. destruct (H4 Hret) as [_ [_ [j [J1 [J2 J3]]]]].
+  fold a' in J1, J2, J3. fold id in J3. fold from in J1, J2.
+  assert (Hw : wanted n a' (v_hw v) = negb (existsb (reply_tree id) f)).
+  { unfold wanted. rewrite Hiq, Hneed. cbn [andb]. fold id. rewrite Hhw, wrote_forest. reflexivity. }
+  split.
+  - intro Hex. rewrite Hw, Hex in J3. exact J3.
+  - intro Hex. rewrite Hw, Hex in J3, J1, J2. cbn [negb] in J3, J1, J2. exists j.
+    split; [rewrite J3; apply default_reply_tree|]. split.
+    + intro Hf. apply J2. right. exact Hf.
+    + intro Hf. apply J1; [reflexivity|exact Hf].
+Qed.
+
+Lemma no_auto_reply n a pd pre e v p' :
+  inv_spec c n a pd pre e v p' ->
+  is_iq n = false \/ needs_resp (snd (get_id_typ (shown_attrs c n a))) = false ->
+  v_auto v = [].
+Proof.
+  intros Hv Hor. destruct Hv as [_ [_ [_ [_ [_ [_ H7]]]]]]. apply H7. unfold wanted.
+  destruct Hor as [-> | ->]; [reflexivity|]. rewrite andb_false_r. reflexivity.
+Qed.
+
+(* every invocation of a run satisfies the per-invocation specification, and
+   only the last one can have failed *)
+Lemma follows_invs l invs r : follows c l invs r ->
+  Forall (fun v => exists n a pre e p', clean (c_ws c) (TStart n a) = true /\ inv_spec c n a 0%N pre e v p') invs /\
+  (r = None -> Forall (fun v => v_ret v = None) invs) /\
+  (forall v, In v (removelast invs) -> v_ret v = None).
+Proof.
+  induction 1 as [l e Ht|b l invs r Hb Hf IH|n a l pre e v p' er Hc Hs Hv Hr|n a l pre rest v invs r Hc Hs Hv Hr Hf IH].
+  - split; [constructor|]. split; [intros; constructor|]. intros v [].
+  - exact IH.
+  - split; [constructor; [|constructor]; do 5 eexists; split; eassumption|].
+    split; [intro H; discriminate|]. intros v0 [].
+  - destruct IH as [I1 [I2 I3]].
+    split; [constructor; [do 5 eexists; split; eassumption|exact I1]|].
+    split; [intro H; constructor; [exact Hr|apply I2; exact H]|].
+    intros v0 Hin. destruct invs as [|v1 invs']; [destruct Hin|].
+    cbn [removelast] in Hin. destruct Hin as [<-|Hin]; [exact Hr|]. apply I3. exact Hin.
+Qed.
+End Rule.
+
+(* ---- the multiplexer's IQ path ---- *)
+
+Lemma run_then_ret ws id ts e : forall s w seen,
+  run_h ws id (then_ret ts e) s w seen = (e, s, enc_all id ts w, rev seen).
+Proof.
+  unfold then_ret. induction ts as [|t ts IH]; intros s w seen; cbn [fold_right run_h]; [reflexivity|].
+  rewrite IH. reflexivity.
+Qed.
+
+(* reading through TrimLeftSpace(Inner(.)) writes nothing: either it runs out of fuel or the
+   continuation runs with the same writer state *)
+Lemma run_ti ws id : forall fuel st kf s w seen,
+  (exists s' seen', run_h ws id (ti_read fuel st kf) s w seen = (Some EFuel, s', w, seen')) \/
+  (exists r st' s' seen', run_h ws id (ti_read fuel st kf) s w seen = run_h ws id (kf r st') s' w seen').
+Proof.
+  induction fuel as [|f IH]; intros st kf s w seen.
+  - cbn [ti_read]. destruct (in_count st) as [c0|]; [|right; do 4 eexists; reflexivity].
+    cbn [run_h]. destruct (ec_token ws s) as [[ot oe] s1]. cbv beta iota zeta. cbn [fst snd].
+    destruct (tr_found st);
+    destruct ot as [[n a|n|b|k b]|]; try destruct c0 as [|c1]; cbv beta iota zeta; cbn [fst snd];
+      try (right; do 4 eexists; reflexivity);
+      destruct (is_ws b); try (right; do 4 eexists; reflexivity);
+      destruct oe; try (right; do 4 eexists; reflexivity);
+      left; cbn [run_h]; do 2 eexists; reflexivity.
+  - cbn [ti_read]. destruct (in_count st) as [c0|]; [|right; do 4 eexists; reflexivity].
+    cbn [run_h]. destruct (ec_token ws s) as [[ot oe] s1]. cbv beta iota zeta. cbn [fst snd].
+    destruct (tr_found st);
+    destruct ot as [[n a|n|b|k b]|]; try destruct c0 as [|c1]; cbv beta iota zeta; cbn [fst snd];
+      try (right; do 4 eexists; reflexivity);
+      destruct (is_ws b); try (right; do 4 eexists; reflexivity);
+      destruct oe; try (right; do 4 eexists; reflexivity);
+      apply IH.
+Qed.
+
+Lemma fallback_id_typ q :
+  bytes_eqb (q_typ q) sv_iq_error || bytes_eqb (q_typ q) sv_iq_result = false ->
+  exists a r, fallback_reply q = TStart (mkname (nspace (q_name q)) s_iq) a :: r /\
+              get_id_typ a = (q_id q, sv_iq_error).
+Proof.
+  intro H. unfold fallback_reply. rewrite H. eexists. eexists. split; [reflexivity|].
+  destruct (q_from q), (q_to q), (q_id q), (q_lang q); reflexivity.
+Qed.
+
+Lemma is_iq_then_empty n : is_iq n = true -> is_iq_empty (mkname (nspace n) s_iq) = true.
+Proof.
+  unfold is_iq, is_iq_empty, in_list. cbn [nspace nlocal existsb sv_is_iq_locals sv_is_iq_spaces sv_is_iq_empty_locals sv_is_iq_empty_spaces].
+  intro H. apply andb_true_iff in H. destruct H as [_ H2].
+  replace (bytes_eqb s_iq (hex "6971")) with true by reflexivity. cbn [orb andb].
+  rewrite !orb_false_r in H2. rewrite !orb_false_r.
+  apply orb_true_iff in H2. destruct H2 as [-> | ->]; [rewrite orb_true_r; reflexivity|rewrite !orb_true_r; reflexivity].
+Qed.
+
+(* the fallback's reply is one element *)
+Definition fallback_tree (q : iqv) : tree :=
+  Elem (mkname (nspace (q_name q)) s_iq)
+       ([mk_attr s_type sv_iq_error]
+        ++ (if is_nil (q_from q) then [] else [mk_attr s_to (q_from q)])
+        ++ (if is_nil (q_to q) then [] else [mk_attr s_from (q_to q)])
+        ++ (if is_nil (q_id q) then [] else [mk_attr s_id (q_id q)])
+        ++ (if is_nil (q_lang q) then [] else [mkattr (mkname xml_ns s_lang) (q_lang q)]))
+       [Elem (mkname [] s_error) [mk_attr s_type sv_err_cancel]
+          [Elem (mkname sv_ns_stanza_error sv_cond_service_unavailable) [] []]].
+
+Lemma fallback_reply_tree q :
+  bytes_eqb (q_typ q) sv_iq_error || bytes_eqb (q_typ q) sv_iq_result = false ->
+  fallback_reply q = tokens_of_tree (fallback_tree q).
+Proof. intro H. unfold fallback_reply. rewrite H. reflexivity. Qed.
+
+Lemma fallback_is_reply q :
+  is_iq (q_name q) = true -> reply_tree (q_id q) (fallback_tree q) = true.
+Proof.
+  intro Hiq. unfold reply_tree, fallback_tree, reply_start.
+  rewrite (is_iq_then_empty _ Hiq).
+  assert (H : get_id_typ ([mk_attr s_type sv_iq_error]
+        ++ (if is_nil (q_from q) then [] else [mk_attr s_to (q_from q)])
+        ++ (if is_nil (q_to q) then [] else [mk_attr s_from (q_to q)])
+        ++ (if is_nil (q_id q) then [] else [mk_attr s_id (q_id q)])
+        ++ (if is_nil (q_lang q) then [] else [mkattr (mkname xml_ns s_lang) (q_lang q)])) = (q_id q, sv_iq_error)).
+  { destruct (q_from q), (q_to q), (q_id q), (q_lang q); reflexivity. }
+  rewrite H. cbn [fst snd].
+  assert (E : bytes_eqb (q_id q) (q_id q) = true) by (apply bytes_eqb_eq; reflexivity). rewrite E. reflexivity.
+Qed.
+
+Lemma new_iq_from_name jp sp : forall a v q, new_iq_from jp sp a v = Some q -> q_name q = q_name v.
+Proof.
+  induction a as [|x a IH]; intros v q H; cbn [new_iq_from] in H.
+  - inversion H; reflexivity.
+  - repeat match type of H with
+           | (if ?b then _ else _) = _ => destruct b
+           | match ?o with Some _ => _ | None => _ end = _ => destruct o; [|discriminate]
+           end; apply IH in H; exact H.
+Qed.
+
+Lemma new_iq_name jp n a q : new_iq jp n a = Some q -> q_name q = n.
+Proof. unfold new_iq. intro H. apply new_iq_from_name in H. exact H. Qed.
+
+Section Mux.
+Variable c : cfg.
+Notation ws := (c_ws c).
+
+(* With the repaired multiplexer and no handler registered, whatever the request's payload
+   (none, whitespace, text, elements), the handler either writes exactly the fallback's
+   service-unavailable reply, or the element could not be read (the stream is broken) and it
+   writes nothing and fails. *)
+Lemma mux_fallback_writes id fuel m n a q s w seen :
+  m_regs m = [] -> m_fixed m = true ->
+  stanza_is n (m_ns m) && bytes_eqb (nlocal n) s_iq = true ->
+  new_iq (c_jp c) n a = Some q ->
+  let '(ret, _, w', _) := run_h ws id (mux_handler m (c_jp c) fuel n a) s w seen in
+  w' = enc_all id (fallback_reply q) w \/ (w' = w /\ ret <> None).
+Proof.
+  intros Hregs Hfix Hst Hq. unfold mux_handler. rewrite Hst. unfold iq_router. rewrite Hq.
+  assert (Hd : forall p st s1 w1 seen1,
+            let '(ret, _, w', _) := run_h ws id (dispatch m fuel q p st) s1 w1 seen1 in
+            w' = enc_all id (fallback_reply q) w1 \/ (w' = w1 /\ ret <> None)).
+  { intros p st s1 w1 seen1. unfold dispatch, iq_handler. rewrite Hregs. cbn [find_reg].
+    rewrite run_then_ret. left. reflexivity. }
+  match goal with |- context [ti_read fuel ?st ?kf] => destruct (run_ti ws id fuel st kf s w seen) as [[s' [seen' E]]|[r [st' [s' [seen' E]]]]] end.
+  - rewrite E. right. split; [reflexivity|discriminate].
+  - rewrite E. destruct r as [ot [e|]]; cbn [fst snd].
+    + destruct (err_eqb e EEOF).
+      * destruct (bytes_eqb (q_typ q) sv_iq_result); [apply Hd|]. rewrite Hfix.
+        rewrite run_then_ret. left. reflexivity.
+      * cbn [run_h]. right. split; [reflexivity|discriminate].
+    + destruct ot as [[pn pa|pn|b|k b]|]; try apply Hd;
+        rewrite Hfix; rewrite run_then_ret; left; reflexivity.
+Qed.
+End Mux.
+
+Lemma his_unfold c fuel hf pd n a l : clean (c_ws c) (TStart n a) = true ->
+  his c fuel hf (mkp (TStart n a :: l) pd false) =
+  let a' := shown_attrs c n a in
+  finish_inv c fuel n a' (fst (get_id_typ a')) (snd (get_id_typ a'))
+    (run_h (c_ws c) (fst (get_id_typ a')) (hf n a') (act pd 0 l) w0 []).
+Proof. intro Hc. unfold his. rewrite (i_token_start (c_ws c) pd n a l Hc). reflexivity. Qed.
+
+Lemma request_not_reply_type t : needs_resp t = true ->
+  bytes_eqb t sv_iq_error || bytes_eqb t sv_iq_result = false.
+Proof.
+  unfold needs_resp. intro H. apply orb_true_iff in H.
+  destruct H as [H|H]; apply bytes_eqb_eq in H; subst; reflexivity.
+Qed.
+
+Lemma c07_mux_fallback c fuel mf m pd n a l v p' q :
+  m_regs m = [] -> m_fixed m = true ->
+  clean (c_ws c) (TStart n a) = true ->
+  let a' := shown_attrs c n a in
+  let id := fst (get_id_typ a') in
+  his c fuel (mux_handler m (c_jp c) mf) (mkp (TStart n a :: l) pd false) = (HRInv v, p') ->
+  is_iq n = true -> stanza_is n (m_ns m) && bytes_eqb (nlocal n) s_iq = true ->
+  needs_resp (snd (get_id_typ a')) = true ->
+  new_iq (c_jp c) n a' = Some q -> q_id q = id -> q_typ q = snd (get_id_typ a') ->
+  (v_hw v = tokens_of_tree (fallback_tree q) /\ reply_tree id (fallback_tree q) = true /\ v_auto v = []) \/
+  (v_hw v = [] /\ v_auto v = [] /\ v_ret v <> None).
+Proof.
+  intros Hregs Hfix Hc a' id Hhis Hiq Hst Hneed Hq Hid Htyp.
+  rewrite (his_unfold c fuel _ pd n a l Hc) in Hhis. cbv zeta in Hhis. fold a' in Hhis. fold id in Hhis.
+  pose proof (mux_fallback_writes c id mf m n a' q (act pd 0 l) w0 [] Hregs Hfix Hst Hq) as Hw.
+  destruct (run_h (c_ws c) id (mux_handler m (c_jp c) mf n a') (act pd 0 l) w0 []) as [[[ret s2] w'] seen] eqn:E.
+  assert (Hnr : bytes_eqb (q_typ q) sv_iq_error || bytes_eqb (q_typ q) sv_iq_result = false)
+    by (rewrite Htyp; apply request_not_reply_type; exact Hneed).
+  assert (Hqn : is_iq (q_name q) = true) by (rewrite (new_iq_name _ _ _ _ Hq); exact Hiq).
+  pose proof (fallback_is_reply q Hqn) as Hrep. rewrite Hid in Hrep.
+  destruct Hw as [Hw|[Hw Hret]].
+  - left.
+    assert (Hout : w_out w' = tokens_of_tree (fallback_tree q)).
+    { rewrite Hw, enc_all_out. cbn [w0 w_out app]. apply fallback_reply_tree. exact Hnr. }
+    assert (Hwr : w_wrote w' = true).
+    { rewrite Hw, (fallback_reply_tree q Hnr).
+      change (tokens_of_tree (fallback_tree q)) with (tokens_of_forest [fallback_tree q] ++ []) at 1.
+      rewrite app_nil_r, wrote_forest. cbn [existsb]. rewrite Hrep. reflexivity. }
+    unfold finish_inv in Hhis. destruct ret as [er|].
+    + inversion Hhis; subst. cbn [v_hw v_auto]. auto.
+    + rewrite Hwr in Hhis. rewrite !andb_false_r in Hhis. cbn [andb] in Hhis.
+      destruct (drain (c_ws c) fuel s2) as [e3 s3]. inversion Hhis; subst. cbn [v_hw v_auto]. auto.
+  - right. subst w'. unfold finish_inv in Hhis. destruct ret as [er|]; [|congruence].
+    inversion Hhis; subst. cbn [v_hw v_auto v_ret w0 w_out]. repeat split; discriminate.
+Qed.
+
+(* ---- the clauses of C07 as they are stated in Properties.v ---- *)
+
+Lemma his_inv_spec c fuel hf pd n a l v p' :
+  clean (c_ws c) (TStart n a) = true -> length l < fuel ->
+  his c fuel hf (mkp (TStart n a :: l) pd false) = (HRInv v, p') ->
+  exists pre e, inv_spec c n a pd pre e v p'.
+Proof.
+  intros Hc Hl Hh. destruct (scan (c_ws c) 0 l) as [pre e] eqn:Hs.
+  destruct (his_elem c fuel hf pd n a l pre e Hc Hs Hl) as [v0 [p0 [E Hv]]].
+  rewrite Hh in E. inversion E; subst. exists pre, e. exact Hv.
+Qed.
+
+Lemma c07_exactly_one_reply c fuel hf pd n a l v p' f :
+  clean (c_ws c) (TStart n a) = true -> length l < fuel ->
+  his c fuel hf (mkp (TStart n a :: l) pd false) = (HRInv v, p') ->
+  let a' := shown_attrs c n a in
+  let id := fst (get_id_typ a') in
+  let from := attr_get s_from a' in
+  is_iq n = true -> needs_resp (snd (get_id_typ a')) = true ->
+  v_ret v = None -> v_hw v = tokens_of_forest f ->
+  (existsb (reply_tree id) f = true -> v_auto v = []) /\
+  (existsb (reply_tree id) f = false ->
+     exists j, v_auto v = tokens_of_tree (default_tree id j) /\
+               reply_tree id (default_tree id j) = true /\
+               (from = [] -> j = []) /\ (from <> [] -> c_jp c from = Some j)).
+Proof.
+  intros Hc Hl Hh a' id from Hiq Hneed Hret Hhw.
+  destruct (his_inv_spec c fuel hf pd n a l v p' Hc Hl Hh) as [pre [e Hv]].
+  destruct (reply_rule c n a pd pre e v p' f Hv Hiq Hneed Hret Hhw) as [R1 R2].
+  split; [exact R1|]. intro Hex. destruct (R2 Hex) as [j [J1 [J2 J3]]].
+  exists j. split; [exact J1|]. split; [apply default_reply_is_reply|]. split; assumption.
+Qed.
+
+Lemma c07_other_ids_dont_count c fuel hf pd n a l v p' f :
+  clean (c_ws c) (TStart n a) = true -> length l < fuel ->
+  his c fuel hf (mkp (TStart n a :: l) pd false) = (HRInv v, p') ->
+  let a' := shown_attrs c n a in
+  let id := fst (get_id_typ a') in
+  is_iq n = true -> needs_resp (snd (get_id_typ a')) = true ->
+  v_ret v = None -> v_hw v = tokens_of_forest f ->
+  (forall t, In t f -> match t with
+                       | Elem m b _ => is_iq_empty m = false \/ fst (get_id_typ b) <> id \/ needs_resp (snd (get_id_typ b)) = true
+                       | _ => True
+                       end) ->
+  exists j, v_auto v = tokens_of_tree (default_tree id j).
+Proof.
+  intros Hc Hl Hh a' id Hiq Hneed Hret Hhw Hall.
+  destruct (c07_exactly_one_reply c fuel hf pd n a l v p' f Hc Hl Hh Hiq Hneed Hret Hhw) as [_ R2].
+  fold a' in R2. fold id in R2.
+  assert (Hex : existsb (reply_tree id) f = false).
+  { apply not_true_is_false. intro Hex. apply existsb_exists in Hex. destruct Hex as [t [Hin Ht]].
+    specialize (Hall t Hin). destruct t as [m b kids|b|k b]; cbn [reply_tree] in Ht; try discriminate.
+    unfold reply_start in Ht. apply andb_true_iff in Ht. destruct Ht as [Ht H3].
+    apply andb_true_iff in Ht. destruct Ht as [H1 H2]. apply bytes_eqb_eq in H2. apply negb_true_iff in H3.
+    destruct Hall as [H|[H|H]]; congruence. }
+  destruct (R2 Hex) as [j [J1 _]]. exists j. exact J1.
+Qed.
+
+Lemma c07_no_auto_reply_otherwise c fuel hf pd n a l v p' :
+  clean (c_ws c) (TStart n a) = true -> length l < fuel ->
+  his c fuel hf (mkp (TStart n a :: l) pd false) = (HRInv v, p') ->
+  is_iq n = false \/ needs_resp (snd (get_id_typ (shown_attrs c n a))) = false ->
+  v_auto v = [].
+Proof.
+  intros Hc Hl Hh Hor. destruct (his_inv_spec c fuel hf pd n a l v p' Hc Hl Hh) as [pre [e Hv]].
+  apply (no_auto_reply c n a pd pre e v p' Hv Hor).
+Qed.
+
+(* the whole run: if Serve returns nil every invocation completed (so every request in it was
+   answered by the rule above); otherwise only the last invocation can have failed, and Serve
+   returns an error: the stream is terminated *)
+Lemma c07_serve c hf toks base : ends_match base toks = true ->
+  let r := serve_all c hf toks in
+  Forall (fun v => exists n a pre e p', clean (c_ws c) (TStart n a) = true /\ inv_spec c n a 0%N pre e v p') (s_invs r) /\
+  (s_ret r = None -> Forall (fun v => v_ret v = None) (s_invs r)) /\
+  (forall v, In v (removelast (s_invs r)) -> v_ret v = None).
+Proof. intros Hm r. apply (follows_invs c toks). apply (c08_serve_follows c hf toks base Hm). Qed.
+
+(* the pinned multiplexer: an IQ without payload is not answered at all *)
+Definition ex_cfg : cfg := mkcfg false sv_ns_client (str "me@example.net") (fun s => Some s).
+Definition ex_empty_iq : list token :=
+  [TStart (mkname sv_ns_client s_iq) [mk_attr s_type sv_iq_get; mk_attr s_id (str "x")];
+   TEnd (mkname sv_ns_client s_iq); TEnd stream_root].
+
+Lemma c07_mux_pinned_refuted :
+  exists toks, ends_match [stream_root] toks = true /\
+    let r := serve_all ex_cfg (fun _ => mux_handler (mkmux sv_ns_client false []) (c_jp ex_cfg) 10) toks in
+    written r = [] /\ s_ret r = Some EUnexpectedEOF /\
+    exists v, s_invs r = [v] /\ is_iq (v_name v) = true /\ get_id_typ (v_attrs v) = (str "x", sv_iq_get).
+Proof.
+  exists ex_empty_iq. split; [vm_compute; reflexivity|]. vm_compute.
+  split; [reflexivity|]. split; [reflexivity|]. eexists. split; [reflexivity|]. split; reflexivity.
+Qed.
+
+(* ... and with the repaired one it is, by the fallback *)
+Lemma c07_mux_fixed_example :
+  let r := serve_all ex_cfg (fun _ => mux_handler (mkmux sv_ns_client true []) (c_jp ex_cfg) 10) ex_empty_iq in
+  written r = tokens_of_tree (fallback_tree (mkiqv (mkname sv_ns_client s_iq) (str "x") sv_iq_get [] [] [])).
+Proof. vm_compute. reflexivity. Qed.
